@@ -24,6 +24,9 @@
     R5 `target_mode_leftovers`, `leftover_tags`, `haplotype_leftovers_partial` / `haplotype_leftovers_untagged`
        (+ `leftover_step_exists`).
 
+    R6 (extra) `piece_haplotype`, `scaffold_haplotype_tag`, `scaffold_haplotype_prefix`, `scaffold_no_haplotype`:
+       which haplotype the pieces of a Pretext scaffold carry (the other argument of `routeKey`).
+
   All statements are at full strength except `haplotype_leftovers_partial` (left-over contigs carrying a `Primary` tag
   are excluded — never the case for an input read from FASTA; see there).  No statement was found false; the
   known findings F10 (an unregistered name prefix invents a haplotype) and F16 (`curated` under a clash) are restated
@@ -33,6 +36,7 @@ import AgpTpf.Model.Remap
 import AgpTpf.Properties.C01
 import AgpTpf.Properties.C09
 import AgpTpf.Proofs.C09RMain
+import AgpTpf.Proofs.C09RHap
 namespace AgpTpf.C09
 open AgpTpf Dict
 
@@ -283,10 +287,12 @@ theorem target_mode_piece (S : Scaffold) (p : Fragment) (h2 : hasTarget S = fals
       pieceTag true S p = some sContaminant) := by
   rw [pieceTag_eq]
   by_cases c1 : p.tags.contains sFalseDuplicate = true
-  · simp [c1]
+  · rw [if_pos c1]; exact ⟨fun h => (by cases h), fun h => absurd c1 h⟩
+  rw [if_neg c1]
   by_cases c2 : p.tags.contains sHaplotig = true
-  · simp [c1, c2]
-  · simp [c1, c2, h2]
+  · rw [if_pos c2]; exact ⟨fun h => (by cases h), fun _ h => absurd c2 h⟩
+  rw [if_neg c2, if_pos (Or.inr ⟨rfl, h2⟩)]
+  exact ⟨fun h => (by cases h), fun _ _ => rfl⟩
 
 /-- **R4 for left-overs.**  Under the same hypotheses, a left-over scaffold with a tag (by `leftover_tags` that tag is
     Contaminant — Target mode) lies in the assembly keyed by the tag, which is not curated, and nowhere else. -/
@@ -430,6 +436,65 @@ theorem leftoverHaplotype_eq (n : Namer) (g : Str) :
        else some (registeredOr n g)) := ⟨rfl, rfl⟩
 
 
+/-! ## R6 (beyond the task list) — the haplotype half: "scaffolds carrying a haplotype tag … go to that haplotype's
+      assembly; everything else goes to the primary assembly"
+
+  R3 files a part under `routeKey tag haplotype`.  Which haplotype a stored result carries:
+  `piece_haplotype` — the one `make_scaffold_name` computed for its Pretext scaffold `S` (kept to the end);
+  `scaffold_haplotype_tag` / `scaffold_haplotype_prefix` / `scaffold_no_haplotype` — what `make_scaffold_name` computes. -/
+
+/-- every spelling registered in the namer's case-insensitive haplotype dictionary is non-empty (holds for every namer
+    the pipeline reaches: `piece_haplotype` provides it) -/
+theorem namerOk_iff (n : Namer) : C17.NamerOk n ↔ ∀ kv ∈ n.haplotypeLc, kv.2 ≠ [] := Iff.rfl
+
+/-- **The pieces of a Pretext scaffold carry its haplotype to the end.**  `findStep` is the loop body of
+    `find_assembly_overlaps` (verbatim, Proofs/C09RHap.lean).  For the Pretext scaffold `S` at any position of the map,
+    `bA` = the build when `S` is reached, `bB` = the build after it, `n` = the namer `make_scaffold_name` returns for `S`:
+    the stored results created for `S` (`bA.store.length ≤ sid < bB.store.length`) have, in the build finally returned by
+    `remap_to_input_assembly`, haplotype `n.currentHaplotype`. -/
+theorem piece_haplotype (input pre post : List Scaffold) (S : Scaffold) (prefix_ : Str)
+    (joinGap : Option Gap) (err : Int) (b : Build)
+    (h : remapToInput input (pre ++ S :: post) prefix_ joinGap err = .ok b) :
+    ∃ bA bB n, findAssemblyOverlaps input pre (startBuild input prefix_ joinGap err) = .ok bA ∧
+      findStep input bA S = .ok bB ∧ C17.NamerOk bA.namer ∧
+      makeScaffoldName bA.namer S.name S.rows S.fragmentTags = .ok n ∧
+      bA.store.length ≤ bB.store.length ∧ bB.store.length ≤ b.store.length ∧
+      ∀ (sid : Nat) (r : Res), bA.store.length ≤ sid → sid < bB.store.length → b.store[sid]? = some r →
+        r.o.haplotype = n.currentHaplotype :=
+  remapToInput_piece_haplotype input pre post S prefix_ joinGap err b h
+
+/-- **A scaffold carrying one haplotype tag.**  `make_scaffold_name` on a tag set (in any listing order
+    `pre ++ t :: post`) whose only haplotype-class tag is `t`, without a Primary tag: the current haplotype is
+    `leftoverHaplotype n t` — the spelling already registered for `lowerStr t` (case-insensitive), else `t`; "Primary"
+    if that is the primary haplotype — and `lowerStr t` is registered with that spelling afterwards.
+    (Two different haplotype-class tags raise TaggingError; a Primary tag is `label`-independent and not covered.) -/
+theorem scaffold_haplotype_tag (n n' : Namer) (scName : Str) (rows : List Row) (pre post : List Str) (t : Str)
+    (hn : C17.NamerOk n) (ht : t ≠ []) (htc : hapClassTag t = true)
+    (hh : ∀ x ∈ pre ++ post, hapClassTag x = false) (hp : sPrimary ∉ pre ++ post)
+    (h : makeScaffoldName n scName rows (pre ++ t :: post) = .ok n') :
+    n'.currentHaplotype = leftoverHaplotype n t ∧
+    dGet? n'.haplotypeLc (lowerStr t) = some (registeredOr n t) :=
+  makeScaffoldName_haptag n n' scName rows pre post t hn ht htc hh hp h
+
+/-- no haplotype-class tag (and no Primary tag): the name-prefix rule, for Pretext and left-over scaffolds alike -/
+theorem scaffold_haplotype_prefix (n n' : Namer) (scName nm g : Str) (rows : List Row) (tags : List Str)
+    (hh : ∀ t ∈ tags, hapClassTag t = false) (hp : sPrimary ∉ tags)
+    (hfirst : firstRowName rows = .ok nm) (hg : hapPrefixOfName nm = some g)
+    (h : makeScaffoldName n scName rows tags = .ok n') :
+    n'.currentHaplotype = leftoverHaplotype n g ∧
+    dGet? n'.haplotypeLc (lowerStr g) = some (registeredOr n g) :=
+  makeScaffoldName_nameprefix n n' scName nm g rows tags hh hp hfirst hg h
+
+/-- … and when the first row's name has no `<hap>_…_<n>` shape either: no haplotype — by R3 the scaffold's untagged
+    pieces go to the primary assembly -/
+theorem scaffold_no_haplotype (n n' : Namer) (scName nm : Str) (rows : List Row) (tags : List Str)
+    (hh : ∀ t ∈ tags, hapClassTag t = false) (hp : sPrimary ∉ tags)
+    (hfirst : firstRowName rows = .ok nm) (hg : hapPrefixOfName nm = none)
+    (h : makeScaffoldName n scName rows tags = .ok n') :
+    n'.currentHaplotype = none ∧ routeKey none n'.currentHaplotype = none := by
+  have := makeScaffoldName_nohap n n' scName nm rows tags hh hp hfirst hg h
+  exact ⟨this, by rw [this]; rfl⟩
+
 /-! ## non-vacuity
 
   Input: scaffold `A` = c1, c2, c3 (100 bp each, no gaps), `B` = d1, `C` = e1, and three scaffolds absent from the map:
@@ -555,5 +620,71 @@ example : (remapToInput xIn xPtx xPre (some xjg) 1).toOption.map (fun b => b.sto
       some ([none, some sContaminant, some sContaminant, some sContaminant, some sHaplotig],
             [some sContaminant, some sContaminant, some sContaminant]) := by
   constructor <;> decide +kernel
+
+
+/-- R6 hypotheses are satisfiable: S3's tag set is `[Painted, Hap2]`, `Hap2` its only haplotype-class tag; on a fresh
+    namer `make_scaffold_name` then gives current haplotype "Hap2" -/
+example :
+    xS3.fragmentTags = [sPainted] ++ "Hap2".toList :: [] ∧ hapClassTag "Hap2".toList = true ∧
+    hapClassTag sPainted = false ∧ C17.NamerOk { autosomePrefix := xPre } ∧
+    (makeScaffoldName { autosomePrefix := xPre } xS3.name xS3.rows xS3.fragmentTags).toOption.map
+      (fun n => (n.currentHaplotype, n.haplotypeLc)) = some (some "Hap2".toList, [("hap2".toList, "Hap2".toList)]) ∧
+    leftoverHaplotype { autosomePrefix := xPre } "Hap2".toList = some "Hap2".toList := by
+  refine ⟨by decide, by decide, by decide, fun kv h => (by cases h), by decide +kernel, by decide⟩
+
+/-- `piece_haplotype` on the first map (`xPtx = [xS1, xS2] ++ xS3 :: []`): the stored result created for S3 is the last
+    one, and it carries "Hap2" -/
+example : (remapToInput xIn ([xS1, xS2] ++ xS3 :: []) xPre (some xjg) 1).toOption.map
+    (fun b => b.store.map (fun r => r.o.haplotype)) = some [none, none, none, none, some "Hap2".toList] := by
+  decide +kernel
+
+
+/-- **R5 applied** to the Target-mode variant: all three left-over scaffolds are tagged Contaminant and lie in the
+    assembly keyed "Contaminant" -/
+example : ∃ outs stats, remap xIn xPtxT xPre (some xjg) 1 = .ok (outs, stats) ∧
+    ∃ b, remapToInput xIn xPtxT xPre (some xjg) 1 = .ok b ∧ b.extra.length = 3 ∧
+      ∀ e ∈ b.extra, e.1.tag = some sContaminant ∧
+        ∃ a ∈ outs, a.key = some sContaminant ∧ ∃ s ∈ a.scaffolds, e.1.rows <:+: s.rows := by
+  have hv := xRemapT_view
+  cases hr : remap xIn xPtxT xPre (some xjg) 1 with
+  | error e => rw [hr] at hv; simp [routeView, Except.toOption] at hv
+  | ok res =>
+    obtain ⟨outs, stats⟩ := res
+    refine ⟨outs, stats, rfl, ?_⟩
+    obtain ⟨b, hb, hall⟩ := target_mode_leftovers xIn xPtxT xPre (some xjg) 1 outs stats hr (by decide)
+    have hlen : (remapToInput xIn xPtxT xPre (some xjg) 1).toOption.map (fun b => b.extra.length) = some 3 := by
+      decide +kernel
+    rw [hb] at hlen
+    simp only [Except.toOption, Option.map_some, Option.some.injEq] at hlen
+    refine ⟨b, hb, hlen, ?_⟩
+    intro e he
+    obtain ⟨sc, hsc, _, _, htag, hroute⟩ := hall e he
+    have hnt : ∀ sc ∈ xIn, hasTarget sc = false := by decide
+    rw [hnt sc hsc] at htag
+    obtain ⟨a, ha, hk, s, hs, _, hinf⟩ := hroute (hnt sc hsc)
+    exact ⟨htag, a, ha, hk, s, hs, hinf⟩
+
+
+/-- hypotheses of `shared_base_one_assembly` / `tagged_leftover_never_curated`: the input is well-formed; in the
+    Target-mode variant the side condition holds for the build and all three left-over scaffolds are tagged -/
+example : C01.WFInput xIn ∧
+    (remapToInput xIn xPtxT xPre (some xjg) 1).toOption.map
+        (fun b => (decide (NoTagWordHaplotype b), b.extra.map (fun e => truthy e.1.tag))) =
+      some (true, [true, true, true]) := by
+  constructor
+  · decide
+  · decide +kernel
+
+/-- `store_tag_created`: `processBait` completes on the first piece of S1 and appends one result to the empty store -/
+example : (processBait xIn xS1.fragmentTags xS1.name (startBuild xIn xPre (some xjg) 1)
+      (match xpf 10 ['A'] 1 100 [sPainted] with | .frag f => f | .gap _ => default)).toOption.map
+    (fun b => b.store.map (fun r => (r.o.tag, r.o.rank, r.added))) = some [(none, 0, true)] := by decide +kernel
+
+/-- `scaffold_no_haplotype` / `scaffold_haplotype_prefix`: S1's tag set has no haplotype-class and no Primary tag, its
+    first row lies on input scaffold `A` (no haplotype prefix); a first row on `hap2_scaffold_3` would have prefix `hap2` -/
+example : xS1.fragmentTags = [sPainted, sContaminant] ∧ (∀ t ∈ xS1.fragmentTags, hapClassTag t = false) ∧
+    sPrimary ∉ xS1.fragmentTags ∧ firstRowName xS1.rows = .ok ['A'] ∧ hapPrefixOfName ['A'] = none ∧
+    hapPrefixOfName "hap2_scaffold_3".toList = some "hap2".toList := by
+  refine ⟨by decide, by decide, by decide, by decide, by decide, by decide⟩
 
 end AgpTpf.C09
